@@ -136,9 +136,12 @@ struct Actor {
     /// when the awaited event happens (µs); None = never
     event_at: Option<u64>,
     len: usize,
+    /// a second receive on the previous actor's socket (both then pend on one descriptor); it never gets
+    /// data of its own
+    share_prev: bool,
 }
 
-fn gen_actor() -> Actor {
+fn gen_actor(prev: Option<&Actor>) -> Actor {
     let kind = [Kind::Recv, Kind::RecvVectored, Kind::PipeRead, Kind::Multi, Kind::Managed, Kind::ZcSend, Kind::Accept, Kind::FileRead, Kind::FileWrite, Kind::Open, Kind::PoolJob][sim::choose("actor.kind", 11)];
     let t = |k: &'static str| 1 + sim::range(k, 0, 30);
     let abandon = match sim::choose("actor.abandon", 4) {
@@ -153,12 +156,18 @@ fn gen_actor() -> Actor {
         _ if sim::flip("event.race", 1, 2) => Some(t("event.at")),
         _ => None,
     };
-    Actor { kind, abandon, event_at, len: 1 + sim::range("actor.len", 0, 200) as usize }
+    let share_prev = kind == Kind::Recv && abandon != Abandon::None && matches!(prev, Some(p) if p.kind == Kind::Recv && !p.share_prev && p.abandon != Abandon::None) && sim::flip("actor.share", 1, 2);
+    let event_at = if share_prev { None } else { event_at };
+    Actor { kind, abandon, event_at, len: 1 + sim::range("actor.len", 0, 200) as usize, share_prev }
 }
 
 fn lifecycle() -> RunResult {
     let cfg = simkernel::KConfig::draw();
-    let actors: Vec<Actor> = (0..1 + sim::range("actors", 0, 3)).map(|_| gen_actor()).collect();
+    let mut actors: Vec<Actor> = Vec::new();
+    for _ in 0..1 + sim::range("actors", 0, 3) {
+        let a = gen_actor(actors.last());
+        actors.push(a);
+    }
     let runtime_drop_at = if sim::flip("runtime.drop", 1, 3) { Some(1 + sim::range("runtime.drop.at", 0, 40)) } else { None };
     let capacity = 1u32 << sim::range("ring.capacity.log2", 0, 4);
     let pool_size = 1u16 << sim::range("bufpool.size.log2", 0, 2);
@@ -184,10 +193,32 @@ fn lifecycle() -> RunResult {
             rt.block_on(async {
                 let mut handles = Vec::new();
                 let mut controllers = Vec::new();
+                let last_sock: Rc<RefCell<Option<Rc<compio_net::UnixStream>>>> = Rc::default();
                 for (i, a) in actors.iter().cloned().enumerate() {
                     let data = sim::payload(payload_seed ^ i as u64, a.len);
                     let token = CancelToken::new();
-                    let fut = actor(i, a.clone(), data, reg.clone(), errs.clone(), keep.clone(), dir.clone(), run_no);
+                    // the socket of a Recv actor is created here, so that the next actor can share it
+                    let sock = if a.kind == Kind::Recv {
+                        if a.share_prev {
+                            last_sock.borrow().clone()
+                        } else {
+                            let (x, y) = std::os::unix::net::UnixStream::pair().expect("socketpair");
+                            let s = Rc::new(compio_net::UnixStream::from_std(x).expect("from_std"));
+                            let peer = Rc::new(RefCell::new(y));
+                            keep.borrow_mut().push(Box::new(peer.clone()));
+                            if let Some(t) = a.event_at {
+                                let d = data.clone();
+                                simkernel::at(Duration::from_micros(t), format!("peer of actor {i} writes {} bytes", d.len()), move || {
+                                    let _ = peer.borrow_mut().write_all(&d);
+                                });
+                            }
+                            *last_sock.borrow_mut() = Some(s.clone());
+                            Some(s)
+                        }
+                    } else {
+                        None
+                    };
+                    let fut = actor(i, a.clone(), data, reg.clone(), errs.clone(), keep.clone(), dir.clone(), run_no, sock);
                     let (tok, errs_a) = (token.clone(), errs.clone());
                     let h = compio_runtime::spawn(async move {
                         match a.abandon {
@@ -244,10 +275,22 @@ fn lifecycle() -> RunResult {
 }
 
 #[allow(clippy::too_many_arguments)]
-async fn actor(i: usize, a: Actor, data: Vec<u8>, reg: Rc<Registry>, errs: Errs, keep: Rc<RefCell<Vec<Box<dyn std::any::Any>>>>, dir: std::path::PathBuf, run_no: u64) {
+#[allow(clippy::too_many_arguments)]
+async fn actor(i: usize, a: Actor, data: Vec<u8>, reg: Rc<Registry>, errs: Errs, keep: Rc<RefCell<Vec<Box<dyn std::any::Any>>>>, dir: std::path::PathBuf, run_no: u64, sock: Option<Rc<compio_net::UnixStream>>) {
     let at = |us: u64| Duration::from_micros(us);
     match a.kind {
-        Kind::Recv | Kind::RecvVectored | Kind::Multi | Kind::Managed => {
+        Kind::Recv => {
+            let Some(s) = sock else { return };
+            let mut r = &*s;
+            let BufResult(res, b) = r.read(TBuf::with_capacity(&reg, a.len + 8)).await;
+            // (on a shared socket either receive may get the bytes: only the owner of an unshared one is checked)
+            if let (Ok(n), false) = (res, a.share_prev) {
+                if b.v[..n] != data[..n.min(data.len())] || n > data.len() {
+                    errs.push("content", format!("actor {i}: received {n} bytes that are not what the peer wrote"));
+                }
+            }
+        }
+        Kind::RecvVectored | Kind::Multi | Kind::Managed => {
             let (x, y) = std::os::unix::net::UnixStream::pair().expect("socketpair");
             let s = compio_net::UnixStream::from_std(x).expect("from_std");
             let peer = Rc::new(RefCell::new(y));
@@ -264,14 +307,6 @@ async fn actor(i: usize, a: Actor, data: Vec<u8>, reg: Rc<Registry>, errs: Errs,
             }
             let mut r = &s;
             match a.kind {
-                Kind::Recv => {
-                    let BufResult(res, b) = r.read(TBuf::with_capacity(&reg, a.len + 8)).await;
-                    if let Ok(n) = res {
-                        if b.v[..n] != data[..n.min(data.len())] || n > data.len() {
-                            errs.push("content", format!("actor {i}: received {n} bytes that are not what the peer wrote"));
-                        }
-                    }
-                }
                 Kind::RecvVectored => {
                     let bufs = [TBuf::with_capacity(&reg, a.len / 2 + 1), TBuf::with_capacity(&reg, a.len / 2 + 8)];
                     let BufResult(res, bufs) = r.read_vectored(bufs).await;
